@@ -1,4 +1,4 @@
-(* C07 model driver: same line protocol as harness/drivers/c07_driver.c.
+(* C07 model driver: same line protocol as harness/drivers/c07_driver.c (which documents it).
    Every operation goes through the extracted [observe] (= [step] + the three
    public queries), i.e. through exactly the function the theorems are about. *)
 let fill = z_of_int 0xEE
@@ -21,6 +21,9 @@ let off_str = function None -> "null" | Some o -> string_of_z o
 
 let handle (lines : string list) : unit =
   let x = ref None in
+  let tailq (s : sess) extra =
+    Printf.sprintf " | rd=%s wr=%s cr=%s%s" (string_of_z (readable s.st)) (string_of_z (writable s.st))
+      (string_of_z (contiguous_readable s.st)) extra in
   let tail (ob : obs) cap =
     Printf.sprintf " | rd=%s wr=%s cr=%s%s" (string_of_z ob.o_rd) (string_of_z ob.o_wr) (string_of_z ob.o_cr)
       (if acc_in_range cap ob.o_acc then "" else " MODEL-ACCESS-OUT-OF-RANGE") in
@@ -41,26 +44,43 @@ let handle (lines : string list) : unit =
         | RUnit -> name
         | RSkip -> name ^ " skip" in
       print_endline (body ^ tail ob s'.st.cap) in
+  (* a negative byte count is outside the documented usage of read / fetch / reader_move (hypothesis wf_op of
+     the theorems): the line is not performed, exactly as in the C driver; read / rmove still drop the
+     outstanding reader region *)
+  let negative name drops =
+    match !x with
+    | None -> print_endline "nobuf"
+    | Some s ->
+      let s' = if drops then { st = s.st; wptr = s.wptr; rptr = None } else s in
+      x := Some s';
+      print_endline (name ^ " skip" ^ tailq s' "") in
+  let isneg n = String.length n > 0 && n.[0] = '-' in
   List.iter (fun l ->
     match words l with
-    | ["init"; c] ->
-      let s = start (z_of_string c) fill in
-      x := Some s;
-      Printf.printf "init 1 | rd=%s wr=%s cr=%s\n" (string_of_z (readable s.st)) (string_of_z (writable s.st))
-        (string_of_z (contiguous_readable s.st))
+    | "init" :: c :: rest ->
+      let ok = not (List.mem "fail" rest) in
+      (match start_opt (z_of_string c) fill ok with
+       | None -> x := None; print_endline "init 0"
+       | Some s ->
+         x := Some s;
+         Printf.printf "init 1 | rd=%s wr=%s cr=%s\n" (string_of_z (readable s.st)) (string_of_z (writable s.st))
+           (string_of_z (contiguous_readable s.st)))
     | ["st"] ->
       (match !x with
        | None -> print_endline "nobuf"
        | Some s -> Printf.printf "st %s %s %s %s\n" (string_of_z s.st.cap) (string_of_z s.st.wp)
                      (string_of_z s.st.rp) (string_of_z s.st.tp))
     | ["write"; h] -> doop "write" (OWrite (unhex h))
-    | ["read"; n] -> doop "read" (ORead (z_of_string n))
-    | ["fetch"; n] -> doop "fetch" (OFetch (z_of_string n))
+    | ["writen"; n] -> doop "writen" (OWriteN (z_of_string n))
+    | ["read"; n] -> if isneg n then negative "read" true else doop "read" (ORead (z_of_string n))
+    | ["fetch"; n] -> if isneg n then negative "fetch" false else doop "fetch" (OFetch (z_of_string n))
     | ["wfc"; n] -> doop "wfc" (OWfc (z_of_string n))
     | ["wmn"; h] -> doop "wmn" (OWmn (unhex h))
     | ["wmove"; h] -> doop "wmove" (OWmove (unhex h))
+    | ["wmoven"; n] -> doop "wmoven" (OWmoveN (z_of_string n))
     | ["rfc"; n] -> doop "rfc" (ORfc (z_of_string n))
-    | ["rmove"; k] -> doop "rmove" (ORmove (z_of_string k))
+    | ["rpk"] -> doop "rpk" ORpeek
+    | ["rmove"; k] -> if isneg k then negative "rmove" true else doop "rmove" (ORmove (z_of_string k))
     | ["clear"] -> doop "clear" OClear
     | [] -> ()
     | _ -> (match !x with None -> print_endline "nobuf" | Some _ -> print_endline "?")) lines
